@@ -5,6 +5,7 @@ Created on Apr 28, 2020
 '''
 from vsc.model.expr_model import ExprModel
 from vsc.model.unary_expr_type import UnaryExprType
+from vsc.model.value_scalar import ValueScalar
 from pyboolector import Boolector
 
 class ExprUnaryModel(ExprModel):
@@ -35,6 +36,13 @@ class ExprUnaryModel(ExprModel):
     def is_signed(self):
         # ... and the same signedness
         return self.expr.is_signed()
+    
+    def val(self):
+        v = int(self.expr.val())
+        if self.op == UnaryExprType.Not:
+            # Bit-wise inversion within the width of the expression
+            v = ~v & ((1 << self.width())-1)
+        return ValueScalar(v)
         
     def accept(self, v):
         v.visit_expr_unary(self)
